@@ -223,3 +223,16 @@ Proof.
   - destruct (payload a), (meta a); reflexivity.
   - repeat split; auto.
 Qed.
+
+Lemma equals_acceptor a b : msg_wf a -> msg_wf b ->
+  (same_value_b a b = true <-> same_value a b) /\ equals true a b = same_value_b a b.
+Proof. intros Wa Wb. split; [now apply same_value_b_iff | now apply equals_fixed_is_spec]. Qed.
+
+Lemma equals_equivalence a b c : msg_wf a -> msg_wf b -> msg_wf c ->
+  equals true a a = true
+  /\ equals true a b = equals true b a
+  /\ (equals true a b = true -> equals true b c = true -> equals true a c = true).
+Proof.
+  intros Wa Wb Wc. split; [now apply equals_fixed_refl|].
+  split; [now apply equals_fixed_sym | now apply equals_fixed_trans].
+Qed.
